@@ -640,8 +640,7 @@ class PauliStringCollection:
           Collection of all Pauli strings formed by a collection of generators.
         """
         all_space = PauliStringCollection(
-            [g for g in PauliString(n=self.get_len()).gen_all_pauli_strings()
-            if g != PauliString(n=self.get_len())])
+            list(PauliString(n=self.get_len()).gen_all_pauli_strings()))
         return self.select_dependents(all_space)
 
     def gen_generators(self) -> Generator[PauliStringCollection, None, None]:
